@@ -60,6 +60,15 @@ CLAIMED.update({
          "Known finding C09.first@wide / C09.identity@wide (64 bit live value vs 32 bit history) is printed as KNOWN-FINDING and does not fail the check."),
 })
 
+CLAIMED.update({
+ "C10": ("exploration", "5.10", "Server states with report sets at window edges (incl. banned slots), 0-6 authorized servers with location lengths 0-255 and ban flags, with/without a migration order, after 0-2 rotations; the genuine exchange between the real client parser and the real sync handler is recorded: an independent decoder of the documented layout must equal the server snapshot and the client's parse; unknown ids get the one-byte refusal. Tampering by the fabric and a rogue signer: single-bit flips (all bits of prefix, timestamp and signature in reach; thorough: every bit of the reply), truncation at field boundaries, extension, rewritten length prefixes, re-signing under every other key, timestamps at +-86400 (accepted) and +-86401 s (rejected), replies bound to another device, server entries and migration orders with missing or foreign GCA signatures; every tampered reply must be rejected with client state and files unchanged.",
+         "The parser is exercised through its accessor (same code as the sync round uses); TCP is the simulated connection."),
+ "C11": ("exploration", "5.11", "A real client with 1-5 servers, each honest (real node), down, flaky (refuse / reset / short read / corrupted reply) or rogue (harness answering with the server's real key: arbitrary byte strings of 0-65535 bytes, every length class around the fixed header sizes, correctly signed short replies, hundreds of entries, inconsistent location lengths, GCA-signed ban entries, un-ban replays, stale timestamps, foreign keys, finite stalls), all-banned and all-failed configurations, restarts, 100-400 ticks of the client's own cadence (overlapping rounds). At every quiescent point: client mutex free, ban knowledge monotone in state and file (also across restart), no dial to a known-banned server; afterwards new readings still produce datagrams and a new dial happens within 64 ticks.",
+         "A stall ends after finite simulated time; 'selects' is read as the choice made when dialling and at start-up."),
+ "C17": ("exploration", "5.15", "Server side: 10-40 server-authorization posts (new, duplicate with changed ports/location, ban, un-ban attempt, bad/foreign signature, before registration) to 1-3 mutually forwarding real servers with peers up/down/failing; every post a server handles, direct or forwarded through the fabric, is applied to that server's list model and the served list compared after every post. Client side: 6-20 sync rounds against real servers (lists, GCA-signed migration orders) and a rogue holding a configured server's key (orders for another device, outer signature by a foreign or the new GCA, inner signatures by the old GCA, un-ban replays, changed ports), client restarts; an independent validity predicate and the signature rules give the expected identity and server map, compared with state, the three files and a restart.",
+         "List replacement at migration and 'entry replaced by the GCA-signed ban entry' follow the documented behaviour; the rogue cannot forge GCA signatures."),
+})
+
 NOT_YET = {
 }
 
